@@ -144,10 +144,9 @@ Definition is_valid_ipv4 (strict : bool) (aton : ares) (s : str) : ares :=
 
 (* address.rsplit(sep, 1): (head, Some scope) at the LAST separator, or (s, None) *)
 Definition rsplit1 (sep : N) (s : str) : str * option str :=
-  match split_char sep s with
-  | [] | [_] => (s, None)
-  | parts => (join [sep] (removelast parts), Some (last parts []))
-  end.
+  let parts := split_char sep s in
+  if (length parts <=? 1)%nat then (s, None)
+  else (join [sep] (removelast parts), Some (last parts [])).
 
 Definition is_valid_ipv6 (s : str) : ares :=
   match s with
